@@ -328,7 +328,13 @@ def liar_defs_and_cases():
     et2 = Def("BadTupleFirst", "enum", "zero", ["C"], [], [], [("Held", "tuple", [("0", u16), ("1", H)]), ("Unit", "unit", [])])
     dp = Def("DeepHolder", "struct", "deep", [], [], [], [("x", u16), ("h", H), ("y", ("string",))])
     dg = Def("DeepGen", "struct", "none", [], ["A"], [], [("n", ("vec", u16)), ("a", ("param", "A"))])
-    defs = [h, zs, zt, en, et, et2, dp, dg]
+    # generic zero-copy definitions instantiated with the wrongly declared type: the parameter is bounded
+    # by ZeroCopy (a declaration), the refusal must come from the constant of the instance
+    gz = Def("BadGenStruct", "struct", "zero", ["C"], ["A"], [], [("tag", u16), ("a", ("param", "A"))], bounds={"A": "ZeroCopy"})
+    ge = Def("BadGenEnum", "enum", "zero", ["C"], ["A"], [], [("Plain", "tuple", [("0", u64)]), ("Held", "named", [("id", u64), ("a", ("arr", 2, ("param", "A")))])],
+             bounds={"A": "ZeroCopy"})
+    gz.zc_params, ge.zc_params = {"A"}, {"A"}
+    defs = [h, zs, zt, en, et, et2, dp, dg, gz, ge]
     cases = [
         (H, [hv]),
         (("vec", H), [("s", [hv, hv]), ("s", [])]),
@@ -345,6 +351,9 @@ def liar_defs_and_cases():
         (("adt", "DeepHolder", ()), [("s", [n(258), hv, ("b", b"xy")])]),
         (("adt", "DeepGen", (H,)), [("s", [("s", [n(1), n(2)]), hv])]),
         (("adt", "DeepGen", (("vec", ("adt", "BadNamed", ())),)), [("s", [("s", [n(1)]), ("s", [("t", 1, [n(7), hv])])])]),
+        (("adt", "BadGenStruct", (H,)), [("s", [n(7), hv])]),
+        (("adt", "BadGenEnum", (H,)), [("t", 1, [n(7), ("s", [hv, hv])]), ("t", 0, [n(7)])]),
+        (("vec", ("adt", "BadGenStruct", (H,))), [("s", [("s", [n(7), hv])])]),
     ]
     return defs, cases
 
